@@ -23,9 +23,9 @@ var c16Path *eng.Kind[PathCase]
 
 func init() {
 	c := eng.Register(&eng.Check{
-		ID:    "C16",
-		Title: "Names and member access read the caller's data, null-safely",
-		Rule: "data maps over a key universe (nested map, struct with exported/unexported fields, zero values, absent keys, nil and typed-nil entries, keys colliding with builtin names, every supported scalar kind, typed maps with zero values) nested three deep, in four configurations (full, all-null, empty, no data map); every path of depth 0..d over the universe (plus `this`) with '.' or '!.' at every position is evaluated as '[path]' and compared with a direct Go walk of the data; distinct = distinct (path shape, result class) pairs",
+		ID:          "C16",
+		Title:       "Names and member access read the caller's data, null-safely",
+		Rule:        "data maps over a key universe (nested map, struct with exported/unexported fields, zero values, absent keys, nil and typed-nil entries, keys colliding with builtin names, every supported scalar kind, typed maps with zero values) nested three deep, in four configurations (full, all-null, empty, no data map); every path of depth 0..d over the universe (plus `this`) with '.' or '!.' at every position is evaluated as '[path]' and compared with a direct Go walk of the data; distinct = distinct (path shape, result class) pairs",
 		TrustedBase: []string{"direct type-switch walk of the data in checks/c16.go"},
 		Assumptions: []string{"member access on a non-null value that is neither a string-keyed map nor a struct, on a pointer to a struct, and on an unexported field is not fixed by the statement: only 'no panic' is required and the rest of such a path is not judged", "a missing struct field must be an error (C03), not a panic"},
 		Run:         runC16,
